@@ -78,13 +78,7 @@ func runC16(c *Ctx) {
 	pub := cl + "Publish"
 	ack := clause("acknowledge requested", T(`^%options\["acknowledge"\]\.\(bool\),ok#0$`), T(`^phi\(.*acknowledge.*\)$`))
 	c.Guard(r2, pub, "waiter registered", `^call:client\.\(\*Client\)\.expectReply\(`, 1, ack)
-	for _, w := range []string{"waitForReply", "waitForReplyWithCancel"} {
-		f := cl + w
-		c.Has(r2, f, "waits on the waiter registered for the id", `^select\{recv:%c\.awaitingReply\[%id\],ok#0;`, 1)
-		closed := clause("waiter channel closed", F(`^select\{recv:%c\.awaitingReply\[%id\],ok#0;.*\}#1$`))
-		c.Reach(r2, f, "waiter removed on every exit (except when its channel was closed)", ReachSpec{
-			From: `^select\{recv:%c\.awaitingReply\[%id\],ok#0;recv:call:(time|invoke:context)`, Stop: `^call:builtin:delete\(%c\.awaitingReply, %id\)$`, Cut: []ir.Clause{closed}, Target: "EXIT", Want: false})
-	}
+	ruleWaiterRemoved(c, r2)
 	c.R.Floor(r2, 40)
 
 	const r3 = "C16.R3 progress handler finished before Call returns"
@@ -146,4 +140,15 @@ func pubNoAck(api string) []ir.Clause {
 		return nil
 	}
 	return []ir.Clause{clause("publish without acknowledge", F(`^%options\["acknowledge"\]\.\(bool\),ok#0$`), F(`^phi\(.*acknowledge.*\)$`), T(`^\(%options == nil\)$`))}
+}
+
+// ruleWaiterRemoved: waiting removes the waiter on every exit.
+func ruleWaiterRemoved(c *Ctx, r2 string) {
+	for _, w := range []string{"waitForReply", "waitForReplyWithCancel"} {
+		f := cl + w
+		c.Has(r2, f, "waits on the waiter registered for the id", `^select\{recv:%c\.awaitingReply\[%id\],ok#0;`, 1)
+		closed := clause("waiter channel closed", F(`^select\{recv:%c\.awaitingReply\[%id\],ok#0;.*\}#1$`))
+		c.Reach(r2, f, "waiter removed on every exit (except when its channel was closed)", ReachSpec{
+			From: `^select\{recv:%c\.awaitingReply\[%id\],ok#0;recv:call:(time|invoke:context)`, Stop: `^call:builtin:delete\(%c\.awaitingReply, %id\)$`, Cut: []ir.Clause{closed}, Target: "EXIT", Want: false})
+	}
 }
